@@ -61,7 +61,9 @@ def gen_case(rng):
         out = []
         for _ in range(k):
             r = rng.random()
-            if r < 0.5:
+            if r < 0.05:
+                out.append("N" + lens_str([rng.choice([0, 1, 3]) for _ in range(rng.choice([5, 7, 3]))]))
+            elif r < 0.5:
                 out.append("W" + wr(False))
             elif r < 0.7:
                 out.append("T" + lens_str(gen_bufs(rng, False)))
@@ -83,7 +85,10 @@ def gen_case(rng):
     else:
         for _ in range(rng.randint(2, 14)):
             r = rng.random()
-            if r < 0.42:
+            if r < 0.06:            # uv_write while uv__malloc fails (UV_ENOMEM when there are 5+ buffers)
+                nb = rng.choice([5, 5, 6, 9, 4, 2])
+                ops.append("N" + lens_str([rng.choice([0, 1, 2, 7]) for _ in range(nb)]))
+            elif r < 0.42:
                 ops.append("W" + wr())
             elif r < 0.54:
                 ops.append("T" + lens_str(gen_bufs(rng, False)))
@@ -204,6 +209,8 @@ def gen_ipc_case(rng):
 
     def some_op(top):
         r = rng.random()
+        if r < 0.05:
+            return "M" + lens_str([rng.choice([1, 2, 5]) for _ in range(rng.choice([5, 6, 4]))])
         if r < 0.40:
             return "V" + payload()
         if r < 0.60:
@@ -312,6 +319,7 @@ FIXED_HUGE = [
 
 
 FIXED_IPC = [
+    "0 0 - 1 ; M1,1,1,1,1 T2 V3 R R ; ; ; settle2",
     # the payload goes out in three rounds: the descriptor must go with the first accepted sendmsg only
     # (the seeded change cleared req->send_handle only when the whole request was written)
     "0 0 - 1 ; V5,5 R R R R ; ; n3 n3 n4 ; settle4",
@@ -346,6 +354,9 @@ FIXED_CONN = [
 
 
 FIXED = [
+    # uv_write with 5 buffers while uv__malloc fails: UV_ENOMEM and nothing changes (queue size, try_write, later writes)
+    "0 0 ; N1,1,1,1,1 T2 W3 R N1*6 T1 R R ; ; n2 ; settle2",
+    "0 0 ; W3 N1,1,1,1,1 T2 N1,1 R R R C R ; N2*5 | ; e11 ; settle3",
     # write + shutdown issued from inside a write callback (shutdown callback came first before the
     # repair of uv__stream_io, finding shutdown_cb_before_nested_write_cb; also first line of the corpus)
     "0 0 ; W1 R R ; W2 S | | ; ; settle2",
@@ -386,6 +397,7 @@ def monitor(case, line):
     last_chunk_id = -1
     in_try = None
     in_cb = False
+    enomem_pending, last_q = False, None
     write2, fd_sent, peer_fds = set(), {}, {}
     hdr0 = case.split(";")[0].split()
     conn_case = len(hdr0) > 2 and hdr0[2][0] in "tuTU"
@@ -424,6 +436,8 @@ def monitor(case, line):
         elif k == "r":
             i, c = a.split(":"); i, c = int(i), int(c)
             ret[i] = c
+            if c == -12:
+                enomem_pending = True
             if shut_ok_at is not None and c not in (EPIPE, EBADF):
                 return (None, "uv_write after uv_shutdown returned %d, not UV_EPIPE" % c)
             if c != 0 and acc[i] != 0:
@@ -484,6 +498,11 @@ def monitor(case, line):
             in_cb = False
             conn_step_open = False
             exp = outstanding_bytes()
+            if int(a) != exp and enomem_pending:
+                return (None, "write_queue_size is %d after a uv_write that returned UV_ENOMEM, it was %d before "
+                              "(unsent bytes of pending requests: %d)" % (int(a), last_q if last_q is not None else 0, exp))
+            enomem_pending = False
+            last_q = int(a)
             if int(a) != exp:
                 return (None, "write_queue_size is %d, unsent bytes of pending requests: %d" % (int(a), exp))
         elif k == "k":
